@@ -5,9 +5,9 @@
    invariant of SrcTie2.v.  Part 1: association lists, the read cache, the 'buf_fill and
    'content loops.  (Part 2: SrcTie3RepairLoop.v.)
 
-   Trusted link (stated once, here): `ArchiveFileBlock::from(&mut self.src)` is
-   `Blocks.parse_block` (`block_from`); its decision structure is tied at levels L2/L3
-   (SrcTie2Events.v) and by the correspondence rows, not at L1.
+   `ArchiveFileBlock::from(&mut self.src)` (`SrcTie3RepairLoop.block_from`) is the TRANSLATED block parser of
+   gen/Src3b.v since work package blockT (it used to be the one trusted link, instantiated with
+   `Blocks.parse_block`); SrcTie3Block.block_from_src proves it equal to the model's parser at L1.
    Premises of the simulation: 0 < CACHE, and the `Read` contract "a read delivers at most the
    length of the buffer it was given" (`RdBounded`): Repair.v does not model the panic that a
    violation of that contract causes in `std::io::Take` / in the slice index. *)
